@@ -27,6 +27,7 @@
 -/
 import Ctrmml.Proofs.Linker
 import Ctrmml.Proofs.Wave
+import Ctrmml.Proofs.LinkHist
 import Ctrmml.Spec.Link
 namespace Ctrmml.Linker
 open Ctrmml
@@ -434,6 +435,189 @@ theorem C10_offset_window_counterexample :
     d11Result.bank = [[4, 0, 0, 4, 0, 0, 0, 12]] ∧ d11Result.wave.currentSize = 12 ∧
     LinkSpec.readAt (d11Result.wave.rom.take d11Result.wave.currentSize) 4 12 ≠ LinkSpec.readAt d11Pcmd 4 12 := by
   refine ⟨rfl, by decide, by decide, by decide⟩
+
+/-! ### whole histories -/
+
+/-- The 8-byte data-bank entry `e` is a PCM header that serves `bytes` at `rate`: its first word is
+a 24-bit address `p` with the pitch code of `rate` in the top byte, its second word the number of
+bytes; the PCM bank `pcm` (what `get_pcm_data` returns) contains `[p, p + size)`, shows exactly
+`bytes` there, and the window does not cross a boundary of the `bankSize`-byte banks unless the
+sample is larger than a bank. -/
+def PcmHeaderServes (e pcm : Bytes) (bankSize rate : Nat) (bytes : Bytes) : Prop :=
+  ∃ p, e.length = 8 ∧ LinkSpec.nat32be e 0 = some (p + pitchCode rate * 16777216) ∧ p < 16777216 ∧
+    LinkSpec.nat32be e 4 = some bytes.length ∧
+    p + bytes.length ≤ pcm.length ∧ LinkSpec.readAt pcm p bytes.length = bytes ∧ Alloc.bankRule bankSize ⟨p, bytes.length⟩
+
+/-- Patch-table entry `q = (slot address, value)` of a linked song serves what the song's file carried
+for that slot: the value is (the low 16 bits of) the index of a data-bank entry which is the carried
+data itself (`glob`; bit 15 = the flag of the id) or a PCM header serving the carried sample bytes at
+the carried rate in the linker's current PCM bank (`pcmh`). -/
+def Serves (l : Linker) (q : Nat × Nat) : Carried → Prop
+  | .data addr flag bytes => q.1 = addr ∧
+      ∃ idx, q.2 = (if flag then idx % 65536 ||| 0x8000 else idx % 65536) ∧ l.dataBank[idx]? = some bytes
+  | .pcm addr hdr bytes => q.1 = addr ∧ bytes.length = hdr.size ∧
+      ∃ idx e, q.2 = idx % 65536 ∧ l.dataBank[idx]? = some e ∧ PcmHeaderServes e (getPcmData l) l.wave.bankSize hdr.rate bytes
+
+theorem serves_of_resolves (l : Linker) (rs : List Alloc.Win) (inv : Wave.Inv l.wave rs) (h24 : l.wave.maxSize < 16777216)
+    (q : Nat × Nat) (c : Carried) (h : Resolves l.dataBank l.wave q c) : Serves l q c := by
+  cases c with
+  | data addr flag bytes => exact h
+  | pcm addr hdr bytes =>
+    obtain ⟨h1, idx, h2, e1, e2, e3, e4, e5, e6, e7⟩ := h
+    obtain ⟨w1, w2, w3, w4⟩ := window_facts l rs inv h2 e3 e4
+    have hcur := inv.curLe
+    have hrl := inv.romLen
+    have hlen : bytes.length = h2.size := by
+      rw [← e7]; simp only [Alloc.Win.reads, List.length_take, List.length_drop]; omega
+    obtain ⟨f1, f2, f3⟩ := pcmHeader_fields h2 (by rw [e4]; omega) (by omega)
+    refine ⟨h1, by rw [hlen, e5], idx, _, e1, e2, h2.position, f3, ?_, by omega, ?_, ?_, ?_, ?_⟩
+    · rw [f1, e4, e6, Nat.add_zero]
+    · rw [f2, hlen]
+    · rw [hlen]; exact w2
+    · rw [hlen, w3, e7]
+    · rw [hlen]; exact w4
+
+/-- PCM regions and data entries over whole histories (PARTIAL — extra hypotheses: `hD11`, every PCM
+header in the added files has start offset 0, the exclusion the known finding D11 forces; `hcount`,
+at most 65536 sample headers in the wave bank at the end, so that the `uint16_t` that carries the
+result of `add_sample` in `add_song` is exact).
+
+For EVERY list of operations (add-song of any byte strings under any names, queries) that a fresh
+linker — `MDSDRV_Linker()` is `fresh 4161536 32768`; any rom of fewer than 2^24 bytes and any bank size
+— runs without an error: every song of the sequence bank was read (`readSong`, the state-free part
+of `add_song`) from one of the added files under its name, its sequence bytes are the file's, and its
+patch table has exactly one entry per `glob`/`pcmh` child of the file's `dblk` list, in file order,
+each serving (`Serves`) what that child carried — in the banks as they are NOW, after all later
+songs: the data entry is in the data bank at the recorded index; the PCM header at the recorded
+index addresses, inside the PCM bank `get_pcm_data` returns, exactly the bytes
+`pcmd[position, position+size)` of the song's own header, with the pitch code of the song's rate, and
+obeys the bank rule.  The data bank has no duplicates and the wave bank satisfies C14's allocator
+invariant (regions and gaps tile the used area: no two allocated regions overlap). -/
+theorem C10_pcm_histories_partial (m bk : Nat) (hm : 0 < m) (hm24 : m < 16777216) (hb : bk < 1073741824)
+    (ops : List Op) (l : Linker) (hrun : runOps ops (Linker.fresh m bk) = .ok l)
+    (hD11 : ∀ name file, Op.add name file ∈ ops → FileStart0 file)
+    (hcount : l.wave.samples.length ≤ 65536) :
+    (∀ sd ∈ l.songs, ∃ name file rd, Op.add name file ∈ ops ∧ readSong file = some rd ∧
+        sd.filename = name ∧ sd.data = rd.seq ∧ All2 (Serves l) sd.patch rd.carried) ∧
+    l.dataBank.Nodup ∧ l.songs.length = (ops.flatMap Op.src).length ∧
+    ∃ rs, Wave.Inv l.wave rs := by
+  obtain ⟨rs, I, x, _⟩ := runOps_inv ops _ l [] [] (linv_fresh m bk hm (by omega) hb) hD11 hrun hcount
+  have hmax : l.wave.maxSize < 16777216 := by
+    rw [x.same.1]; exact hm24
+  refine ⟨?_, I.nodup, ?_, rs, I.wave⟩
+  · intro sd hsd
+    obtain ⟨name, file, rd, h1, h2, h3, h4, h5⟩ := I.songs sd hsd
+    refine ⟨name, file, rd, ?_, h2, h3, h4, ?_⟩
+    · simp only [List.nil_append, List.mem_flatMap] at h1
+      obtain ⟨o, ho, hmem⟩ := h1
+      cases o with
+      | query => simp [Op.src] at hmem
+      | add n f =>
+        simp only [Op.src, List.mem_singleton, Prod.mk.injEq] at hmem
+        obtain ⟨rfl, rfl⟩ := hmem
+        exact ho
+    · exact h5.imp (serves_of_resolves l rs I.wave hmax)
+  · rw [runOps_songs_length ops _ l hrun]; simp [Linker.fresh, Linker.songs]
+
+/-- Samples and data of later songs never disturb earlier ones (PARTIAL: same two extra hypotheses).
+Split any history in two: after the first part the linker is `l1`, after the whole `l`.  Then every
+song of `l1` is still a song of `l` with the same patch table; every data-bank index of `l1` holds
+the same entry in `l`; every sample header of `l1` is a header of `l`; and no byte of the window
+`[position, position + start + size)` of any sample header of `l1` has changed in the rom — so
+whatever a patch entry resolved to in `l1` it resolves to in `l`. -/
+theorem C10_pcm_later_songs_keep_partial (m bk : Nat) (hm : 0 < m) (hm2 : m < 1073741824) (hb : bk < 1073741824)
+    (ops1 ops2 : List Op) (l1 l : Linker)
+    (h1 : runOps ops1 (Linker.fresh m bk) = .ok l1) (h2 : runOps ops2 l1 = .ok l)
+    (hD11 : ∀ name file, Op.add name file ∈ ops1 ++ ops2 → FileStart0 file)
+    (hcount : l.wave.samples.length ≤ 65536) :
+    runOps (ops1 ++ ops2) (Linker.fresh m bk) = .ok l ∧
+    (∀ sd ∈ l1.songs, sd ∈ l.songs) ∧
+    (∀ (i : Nat) (e : Bytes), l1.dataBank[i]? = some e → l.dataBank[i]? = some e) ∧
+    (∀ s ∈ l1.wave.samples, s ∈ l.wave.samples ∧
+        Alloc.Win.reads l.wave.rom ⟨s.position, s.start + s.size⟩ = Alloc.Win.reads l1.wave.rom ⟨s.position, s.start + s.size⟩) ∧
+    (∀ q c, Resolves l1.dataBank l1.wave q c → Resolves l.dataBank l.wave q c) := by
+  have hc1 : l1.wave.samples.length ≤ 65536 := Nat.le_trans (runOps_count _ _ _ h2) hcount
+  obtain ⟨rs1, I1, _, _⟩ := runOps_inv ops1 _ l1 [] [] (linv_fresh m bk hm hm2 hb)
+    (fun n f hmem => hD11 n f (List.mem_append_left _ hmem)) h1 hc1
+  obtain ⟨rs, I, x, hs⟩ := runOps_inv ops2 l1 l rs1 _ I1 (fun n f hmem => hD11 n f (List.mem_append_right _ hmem)) h2 hcount
+  refine ⟨by rw [runOps_append, h1]; exact h2, hs, x.bank, ?_, fun q c h => h.mono I1.wave x⟩
+  intro s hs1
+  refine ⟨x.samples s hs1, ?_⟩
+  obtain ⟨r, hr, g1, g2⟩ := I1.wave.housed s hs1
+  exact x.stable ⟨s.position, s.start + s.size⟩ ⟨r, hr, g1, by simp only; omega⟩
+
+/-! non-vacuity of the two history theorems: two files on a 64-byte rom in 16-byte banks.  File A
+(default group) carries one 8-byte sample; file B (group `sfx`) carries the same 8 bytes at another
+rate (shared data, second header), a flagged data entry and a 20-byte sample (larger than a bank:
+placed at the next multiple of 32); a query in between. -/
+def exFileA : Bytes := [82, 73, 70, 70, 106, 0, 0, 0, 77, 68, 83, 48, 118, 101, 114, 32, 2, 0, 0, 0, 0, 6, 103, 114, 112, 32, 0, 0, 0, 0, 115, 101, 113, 32, 4, 0, 0, 0, 0, 2, 0, 0, 76, 73, 83, 84, 48, 0, 0, 0, 100, 98, 108, 107, 112, 99, 109, 104, 36, 0, 0, 0, 0, 0, 0, 0, 0, 0, 0, 0, 0, 0, 0, 0, 8, 0, 0, 0, 0, 0, 0, 0, 0, 0, 0, 0, 64, 31, 0, 0, 0, 0, 0, 0, 0, 0, 0, 0, 112, 99, 109, 100, 8, 0, 0, 0, 1, 2, 3, 4, 5, 6, 7, 8]
+def exFileB : Bytes := [82, 73, 70, 70, 194, 0, 0, 0, 77, 68, 83, 48, 118, 101, 114, 32, 2, 0, 0, 0, 0, 6, 103, 114, 112, 32, 3, 0, 0, 0, 115, 102, 120, 0, 115, 101, 113, 32, 9, 0, 0, 0, 0, 2, 0, 0, 0, 0, 0, 0, 9, 0, 76, 73, 83, 84, 106, 0, 0, 0, 100, 98, 108, 107, 112, 99, 109, 104, 36, 0, 0, 0, 1, 0, 0, 0, 0, 0, 0, 0, 0, 0, 0, 0, 8, 0, 0, 0, 0, 0, 0, 0, 0, 0, 0, 0, 92, 68, 0, 0, 0, 0, 0, 0, 0, 0, 0, 0, 103, 108, 111, 98, 6, 0, 0, 0, 2, 0, 0, 128, 7, 8, 112, 99, 109, 104, 36, 0, 0, 0, 0, 0, 0, 0, 8, 0, 0, 0, 0, 0, 0, 0, 20, 0, 0, 0, 0, 0, 0, 0, 0, 0, 0, 0, 64, 31, 0, 0, 0, 0, 0, 0, 0, 0, 0, 0, 112, 99, 109, 100, 28, 0, 0, 0, 1, 2, 3, 4, 5, 6, 7, 8, 50, 51, 52, 53, 54, 55, 56, 57, 58, 59, 60, 61, 62, 63, 64, 65, 66, 67, 68, 69]
+def exOps1 : List Op := [.add [97] exFileA, .query]
+def exOps2 : List Op := [.add [98] exFileB]
+def okOr (e : Except Err Linker) : Linker := match e with
+  | .ok l => l
+  | .error _ => Linker.fresh 0 0
+def isOk (e : Except Err Linker) : Bool := match e with
+  | .ok _ => true
+  | .error _ => false
+theorem ok_of_isOk (e : Except Err Linker) (h : isOk e = true) : e = .ok (okOr e) := by
+  cases e with
+  | ok l => rfl
+  | error x => cases h
+def exLinked1 : Linker := okOr (runOps exOps1 (Linker.fresh 64 16))
+def exLinked : Linker := okOr (runOps exOps2 exLinked1)
+theorem some_getD {α : Type} (o : Option α) (d : α) (h : o.isSome = true) : o = some (o.getD d) := by
+  cases o with
+  | some x => rfl
+  | none => cases h
+def exReadA : SongRead := (readSong exFileA).getD ⟨[], [], [], []⟩
+def exReadB : SongRead := (readSong exFileB).getD ⟨[], [], [], []⟩
+
+set_option maxRecDepth 8192 in
+theorem exStart0 : ∀ name file, Op.add name file ∈ exOps1 ++ exOps2 → FileStart0 file := by
+  have hA : FileStart0 exFileA := by
+    intro rd h
+    have e : readSong exFileA = some exReadA := some_getD _ _ (by decide +kernel)
+    rw [e] at h
+    have hrd := (Option.some.inj h).symm
+    subst hrd
+    have c : exReadA.carried = [.pcm 2 ⟨0, 0, 8, 0, 0, 8000, 0, 0⟩ [1, 2, 3, 4, 5, 6, 7, 8]] := by decide +kernel
+    rw [c]
+    intro cr hcr
+    simp only [List.mem_singleton] at hcr
+    subst hcr; rfl
+  have hB : FileStart0 exFileB := by
+    intro rd h
+    have e : readSong exFileB = some exReadB := some_getD _ _ (by decide +kernel)
+    rw [e] at h
+    have hrd := (Option.some.inj h).symm
+    subst hrd
+    have c : exReadB.carried = [.pcm 4 ⟨0, 0, 8, 0, 0, 17500, 0, 0⟩ [1, 2, 3, 4, 5, 6, 7, 8], .data 6 true [7, 8],
+        .pcm 2 ⟨8, 0, 20, 0, 0, 8000, 0, 0⟩ [50, 51, 52, 53, 54, 55, 56, 57, 58, 59, 60, 61, 62, 63, 64, 65, 66, 67, 68, 69]] := by decide +kernel
+    rw [c]
+    intro cr hcr
+    simp only [List.mem_cons, List.not_mem_nil, or_false] at hcr
+    rcases hcr with rfl | rfl | rfl
+    · rfl
+    · trivial
+    · rfl
+  intro name file hm
+  simp only [exOps1, exOps2, List.cons_append, List.nil_append, List.mem_cons, List.not_mem_nil, or_false, Op.add.injEq, reduceCtorEq, false_or] at hm
+  rcases hm with ⟨_, rfl⟩ | ⟨_, rfl⟩
+  · exact hA
+  · exact hB
+
+theorem exRun1 : runOps exOps1 (Linker.fresh 64 16) = .ok exLinked1 := ok_of_isOk _ (by decide +kernel)
+theorem exRun2 : runOps exOps2 exLinked1 = .ok exLinked := ok_of_isOk _ (by decide +kernel)
+
+example : exLinked.wave.samples.length = 3 ∧ exLinked.songs.length = 2 ∧ exLinked.wave.currentSize = 52 ∧
+    exLinked.dataBank.length = 4 := ⟨by decide +kernel, by decide +kernel, by decide +kernel, by decide +kernel⟩
+
+/-- the hypotheses of both history theorems are met by this history -/
+example : ∃ l, runOps (exOps1 ++ exOps2) (Linker.fresh 64 16) = .ok l ∧
+    (∀ name file, Op.add name file ∈ exOps1 ++ exOps2 → FileStart0 file) ∧ l.wave.samples.length ≤ 65536 ∧ l.songs.length = 2 :=
+  ⟨exLinked, (C10_pcm_later_songs_keep_partial 64 16 (by omega) (by omega) (by omega) exOps1 exOps2 exLinked1 exLinked
+      exRun1 exRun2 exStart0 (by decide +kernel)).1, exStart0, by decide +kernel, by decide +kernel⟩
 
 /-- The full statement of C10 over the model, kept for the record: for every list of well-formed
 MDS files (as read by the spec's own reader, PCM start offsets 0) that the linker accepts, the
